@@ -68,10 +68,11 @@ type ContractTable struct {
 	Files   []string
 	GhostFields map[string]string // "pkg.Type.field" -> type
 	Consts  map[string]string
+	InitFacts map[string][]Clause // "pkgname.global" -> facts established by the package initialiser (assumed)
 }
 
 func newContractTable() *ContractTable {
-	return &ContractTable{C: map[string]*Contract{}, Funcs: map[string]*SpecFunc{}, Imports: map[string]string{}, GhostFields: map[string]string{}, Consts: map[string]string{}}
+	return &ContractTable{C: map[string]*Contract{}, Funcs: map[string]*SpecFunc{}, Imports: map[string]string{}, GhostFields: map[string]string{}, Consts: map[string]string{}, InitFacts: map[string][]Clause{}}
 }
 
 var tagRe = regexp.MustCompile(`^\[([A-Za-z0-9_.:\-]+)\]\s*`)
@@ -79,7 +80,7 @@ var pkgClauseRe = regexp.MustCompile(`^package\s+(\w+)`)
 
 var clauseKeywords = map[string]bool{"requires": true, "ensures": true, "modifies": true, "pure": true, "assumed": true,
 	"functype": true, "loop": true, "results": true, "params": true, "maypanic": true, "wrapping": true, "assert": true, "use": true, "allocates": true,
-	"dead": true, "func": true, "iface": true, "lemma": true, "import": true, "axiom": true, "ghostfield": true, "uninterp": true, "const": true}
+	"dead": true, "func": true, "iface": true, "lemma": true, "import": true, "initfact": true, "axiom": true, "ghostfield": true, "uninterp": true, "const": true}
 
 // loadContractFile parses one file. defaultPkg is used for keys without package qualifier
 // (the Go package name of the file for in-repo contract files).
@@ -168,6 +169,18 @@ func (ct *ContractTable) loadContractFile(path string) error {
 				return fmt.Errorf("%s:%d: bad const", path, rl.line)
 			}
 			ct.Consts[strings.TrimSpace(parts[0])] = strings.TrimSpace(parts[1])
+		case "initfact":
+			// initfact name : expr      (name is a package-level variable of this package)
+			parts := strings.SplitN(rest, ":", 2)
+			if len(parts) != 2 {
+				return fmt.Errorf("%s:%d: bad initfact", path, rl.line)
+			}
+			c, err := mkClause(strings.TrimSpace(parts[1]), rl.line)
+			if err != nil {
+				return err
+			}
+			k := defaultPkg + "." + strings.TrimSpace(parts[0])
+			ct.InitFacts[k] = append(ct.InitFacts[k], c)
 		case "ghostfield":
 			// ghostfield pkg.Type.name Type
 			if len(fields) != 3 {
